@@ -245,6 +245,9 @@ func runC19(c *kit.Ctx) {
 	}
 
 	// ---- R4 ---------------------------------------------------------------
+	c.StartRule("R6", "Close acquires no mutex that is held across a blocking operation", 1)
+	noBlockingWhileLocked(c, true)
+
 	c.StartRule("R4", "no connection is created after Close", 4)
 	c.Table("C19.R4: the admin branch of establishRegion creates the master connection without a closed test (reason: AdminClient exposes no Close; newAdminClient does not even create the done channel)")
 	{
@@ -378,6 +381,11 @@ func runC19(c *kit.Ctx) {
 				c.Unk(fn, "send-after-resolve", s.Pos(), "new caller of sendBlocking")
 			}
 		}
+	}
+
+	// ---- R7 ---------------------------------------------------------------
+	if !c.Frozen {
+		embed(c, "R7", "closing a connection completes every call that was handed to it: nothing keeps waiting, no goroutine stays behind (the rules of C03, run as one rule here)", 30, runC03)
 	}
 }
 
